@@ -98,7 +98,8 @@ def applyStep (σ : Session) : Step → Session
                | none => setCols σ.catalogCols n cols }
   | .cacheCols n cols =>
     { σ with catalogCols := match colsOf σ.catalogCols n with
-               | some _ => σ.catalogCols          -- add_table without replace: already known
+               | some _ => if sessLookupKeepsKnownCols then σ.catalogCols   -- add_table without replace: already known
+                           else setCols σ.catalogCols n cols
                | none => setCols σ.catalogCols n cols }
   | .transform => σ
   | .action => σ
@@ -165,6 +166,8 @@ inductive Obs
   | ident (n : Name)
   | viewCols (cs : Option (List Name))
   | raised                                   -- KeyError
+  | resolved (ts : List (Option Name))       -- the source each unqualified column of a `session.sql` statement is attributed to
+  | state (tokens : List Name)               -- the state of an object P uses (a kept DataFrame, the reader `session.read` hands out)
   deriving DecidableEq, Repr
 
 def hasKey (m : List (Name × List Id)) (n : Name) : Bool := m.any (fun p => p.1 = n)
@@ -206,12 +209,48 @@ def raisesR (σ : Session) (ctx : List CteO) (joined : List Name) (ident : Name)
 def resolveIdentR (σ : Session) (ctx : List CteO) (joined : List Name) (ident : Name) : Obs :=
   if raisesR σ ctx joined ident then .raised else .ident (resolveIdent σ (withIds ctx) joined ident)
 
+/-! ### `session.sql`: which source an unqualified column belongs to
+
+`session.sql` hands the statement to sqlglot's `qualify` with `schema = catalog._schema` and the regenerated
+`infer_schema` argument (`Gen.sessSqlInferSchema`, a function of the session state).  What `Resolver.get_table`
+does with an unqualified column is *assumed* (third party) and validated against the running code:
+a column that occurs in the known column list of exactly one source belongs to it; otherwise, if
+`infer_schema` and exactly one source has no known column list, it belongs to that one; otherwise it stays
+unqualified and the statement is rejected. -/
+
+/-- the sources whose known column list contains `c` -/
+def occurrences (srcs : List (Name × List Name)) (c : Name) : List Name :=
+  (srcs.filter (fun s => s.2.contains c)).map (·.1)
+
+/-- the sources the schema knows nothing about (`not columns or "*" in columns`) -/
+def withoutSchema (srcs : List (Name × List Name)) : List Name :=
+  (srcs.filter (fun s => s.2.isEmpty || s.2.contains "*")).map (·.1)
+
+def resolveCol (infer : Bool) (srcs : List (Name × List Name)) (c : Name) : Option Name :=
+  match occurrences srcs c with
+  | [t] => some t
+  | _ => if infer then (match withoutSchema srcs with | [t] => some t | _ => none) else none
+
+/-- the `infer_schema` argument `session.sql` passes, as a function of the session (regenerated expression
+    over "the session holds a temp view" and "the catalog schema is empty") -/
+def sqlInfer (σ : Session) : Bool := sessSqlInferSchema (!σ.catalogObjects.isEmpty) σ.catalogCols.isEmpty
+
+/-- the column lists the catalog gives for the sources `(name in the statement, name in the catalog)` -/
+def sourceCols (σ : Session) (srcs : List (Name × Name)) : List (Name × List Name) :=
+  srcs.map (fun s => (s.1, (colsOf σ.catalogCols s.2).getD []))
+
+/-- qualification of one single-scope statement: sources and unqualified column names -/
+def resolveSql (σ : Session) (srcs : List (Name × Name)) (cols : List Name) : List (Option Name) :=
+  cols.map (resolveCol (sqlInfer σ) (sourceCols σ srcs))
+
 /-! ### histories: the steps of a program P interleaved with the steps of other work H -/
 
 inductive Ev
   | step (own : Bool) (st : Step)                                  -- own = true: a step of P
   | query (ctx : List CteO) (joined : List Name) (ident : Name)    -- P normalises `ident` against chain `ctx`
   | readView (n : Name)                                            -- P's `session.sql` reads view `n`: which columns does the catalog give?
+  | readSql (srcs : List (Name × Name)) (cols : List Name)         -- P's `session.sql` statement over these sources (alias, catalog name) with these unqualified columns
+  | observe (tokens : List Name)                                   -- P uses an object in this state (nothing of the session is consulted)
   deriving Repr
 
 /-- the identifiers P's expressions end up with and the view columns P's statements are qualified against, in order -/
@@ -220,18 +259,25 @@ def outs (σ : Session) : List Ev → List Obs
   | .step _ st :: r => outs (applyStep σ st) r
   | .query ctx j ident :: r => resolveIdentR σ ctx j ident :: outs σ r
   | .readView n :: r => .viewCols (colsOf σ.catalogCols n) :: outs σ r
+  | .readSql srcs cols :: r => .resolved (resolveSql σ srcs cols) :: outs σ r
+  | .observe ts :: r => .state ts :: outs σ r
 
 def finalSession (σ : Session) : List Ev → Session
   | [] => σ
   | .step _ st :: r => finalSession (applyStep σ st) r
   | _ :: r => finalSession σ r
 
-/-- view / table names whose catalog columns the history's steps set -/
+/-- view names the history's steps register -/
 def foreignViews : List Ev → List Name
   | [] => []
   | .step false (.registerView n _) :: r => n :: foreignViews r
-  | .step false (.cacheCols n _) :: r => n :: foreignViews r
   | _ :: r => foreignViews r
+
+/-- permanent tables whose columns the history's lookups (`session.table`) make the catalog cache -/
+def foreignLookups : List Ev → List Name
+  | [] => []
+  | .step false (.cacheCols n _) :: r => n :: foreignLookups r
+  | _ :: r => foreignLookups r
 
 /-- P alone: the history's steps removed -/
 def onlyOwn : List Ev → List Ev
@@ -262,11 +308,22 @@ def ctesHaveIds : List Ev → Bool
   | .query ctx _ _ :: r => (sessLookupTotal || allHaveIds ctx) && ctesHaveIds r
   | _ :: r => ctesHaveIds r
 
-/-- H_viewsOwn (decidable): P reads no view name that the history registers -/
+/-- H_viewsOwn / H_tableLookupsOwn (decidable): P's statements read no name in `V` -/
 def viewsOwn : List Ev → List Name → Bool
   | [], _ => true
   | .readView n :: r, V => !V.contains n && viewsOwn r V
+  | .readSql srcs _ :: r, V => srcs.all (fun s => !V.contains s.2) && viewsOwn r V
   | _ :: r, V => viewsOwn r V
+
+/-- H_sessionSqlStateless (decidable): the `infer_schema` argument of `session.sql` does not depend on the
+    session (`Gen.sessSqlInferSchema` is constant), or P has no `session.sql` statement with unqualified columns -/
+def sqlInferConst : Bool :=
+  [true, false].all (fun a => [true, false].all (fun b => sessSqlInferSchema a b == sessSqlInferSchema false true))
+
+def noUnqualifiedSql : List Ev → Bool
+  | [] => true
+  | .readSql _ cols :: r => cols.isEmpty && noUnqualifiedSql r
+  | _ :: r => noUnqualifiedSql r
 
 /-! ### SQL text: CTE names are content hashes -/
 
